@@ -12,7 +12,7 @@ import zlib
 import numpy as np
 import pandas as pd
 
-GEN_VERSION = 8
+GEN_VERSION = 9
 
 STATES = ["AA", "BB", "CC", "DD"]
 CLASSES = ["urban", "suburban", "rural", "exurb"]
@@ -94,7 +94,8 @@ def make_election(rng, o=None):
                 if equal_baseline:
                     bt = int(o.get("baseline_size", 1000))
                 else:
-                    bt = int(np.exp(rng.uniform(np.log(50), np.log(50000))))
+                    lo_, hi_ = o.get("size_range", (50, 50000))
+                    bt = int(np.exp(rng.uniform(np.log(lo_), np.log(hi_))))
                 share = float(np.clip(rng.beta(5, 5), 0.05, 0.95))
                 two = int(bt * rng.uniform(0.9, 1.0))
                 bd = int(round(two * share))
@@ -254,7 +255,11 @@ def make_feed(rng, el, o=None):
                 if boundary and rng.random() < 0.2 and thr > 1:
                     pct = float(thr - 1)
                 elif boundary and rng.random() < 0.15 and thr > 1:
-                    pct = float(thr) - float(rng.choice([0.4, 0.25, 0.1, 0.01]))  # rounds to the threshold, is below it
+                    # rounds to the threshold / is within any float tolerance of it, but is below it
+                    pct = float(thr) - float(rng.choice([0.4, 0.25, 0.1, 0.01, 1e-4, 1e-7, 0.0]))
+                    if pct == float(thr):
+                        pct = float(np.nextafter(float(thr), 0.0)) if rng.random() < 0.5 else thr * (0.7 + 0.2 + 0.1) \
+                            if thr * (0.7 + 0.2 + 0.1) < thr else float(np.nextafter(float(thr), 0.0))
                 frac = min(pct, 100) / 100
                 if rng.random() < partial_above:
                     frac = float(rng.uniform(1.3, 3.0))
@@ -285,7 +290,7 @@ def make_feed(rng, el, o=None):
             continue
         used.add(f)
         pct = float(choice(rng, [0, 40, 100, 120]))
-        tt = 0 if pct == 0 and rng.random() < 0.7 else int(rng.integers(0, 5000))
+        tt = 0 if pct == 0 and rng.random() < 0.7 else int(rng.integers(0, o.get("unexpected_max", 5000)))
         td = int(tt * rng.uniform(0.1, 0.8))
         tg = int((tt - td) * rng.uniform(0.7, 1.0))
         rows.append(dict(postal_code=st, geographic_unit_fips=f, percent_expected_vote=pct,
@@ -375,7 +380,8 @@ _STRCOLS = {"geographic_unit_fips", "county_fips", "district", "postal_code", "c
 
 
 def _read(csv, dtypes):
-    df = pd.read_csv(io.StringIO(csv), dtype={c: str for c in _STRCOLS}, keep_default_na=False, na_values=[""])
+    df = pd.read_csv(io.StringIO(csv), dtype={c: str for c in _STRCOLS}, keep_default_na=False, na_values=[""],
+                     float_precision="round_trip")
     for c, t in dtypes.items():
         if c in df.columns and c not in _STRCOLS:
             if t.startswith("int"):
@@ -385,11 +391,22 @@ def _read(csv, dtypes):
     return df
 
 
+def make_categorical(el, col):
+    import pandas as _pd
+
+    cats = sorted(set(el.pre[col].astype(str)))
+    extra = ["0000_unused_first", "zz_unused_last"] + ([cats[len(cats) // 2] + "_unused_mid"] if cats else [])
+    el.pre[col] = _pd.Categorical(el.pre[col].astype(str), categories=sorted(cats + extra))
+    el.meta["cat_key"] = col
+
+
 def dematerialise(m):
     pre = _read(m["pre_csv"], m["pre_dtypes"])
     truth = _read(m["truth_csv"], {})
     feed = _read(m["feed_csv"], m["feed_dtypes"])
     el = Election(pre, m["config"], m["office"], m["geo_type"], truth, m.get("meta", {}))
+    if el.meta.get("cat_key"):
+        make_categorical(el, el.meta["cat_key"])
     return el, feed, m["call"]
 
 
